@@ -1311,7 +1311,13 @@ func (s *Netceptor) forwardMessage(md *MessageData) error {
 	c, ok := s.connections[nextHop]
 	s.connLock.RUnlock()
 	if !ok || c.WriteChan == nil {
-		return fmt.Errorf("no connection to next hop")
+		// The routing table still names a neighbour whose connection has just gone away (the
+		// table is rebuilt a moment later).  The message is lost like on any lossy link; an
+		// error here would reach the sender's WriteTo and make QUIC tear down a stream that
+		// can continue over the alternative route.
+		s.Logger.Trace("    No connection to next hop %s, message dropped\n", nextHop)
+
+		return nil
 	}
 	message, err := s.translateDataFromMessage(md)
 	if err != nil {
@@ -1322,7 +1328,8 @@ func (s *Netceptor) forwardMessage(md *MessageData) error {
 	s.Logger.Trace("    Forwarding data length %d via %s\n", len(md.Data), nextHop)
 	select {
 	case <-c.Context.Done():
-		return fmt.Errorf("connInfo cancelled while forwarding message")
+		// the connection to the next hop is going away: same as above
+		s.Logger.Trace("    Connection to next hop %s ended, message dropped\n", nextHop)
 	case c.WriteChan <- message:
 	}
 
